@@ -352,7 +352,7 @@ def main(argv):
             os.makedirs(sdir, exist_ok=True)
             try:
                 rep2 = harness_run(binp, pid, cfg["test"], "thorough", s2, sdir, cfg.get("timeout", {}).get("thorough", 3000))
-            except (Broken, subprocess.TimeoutExpired) as e:
+            except Exception as e:  # the search is best effort: never let it hide the verdict
                 searched["runs"].append({"seed": s2, "result": "search run did not complete: %s" % getattr(e, "what", e)})
                 continue
             found = [f for f in (rep2.get("oracle_failures") or []) if f["signature"] not in known_sigs]
